@@ -116,6 +116,14 @@ func TestCheck(t *testing.T) {
 					if !ev.Each(col, "enumerated", Case{Dialect: d, Base: base, Scenario: "create", Qualifier: q, Mode: mode, Span: sp}, check, known) {
 						return
 					}
+					// a requested qualifier that is spelled like one of the two schemas
+					if q == "custom" && strings.HasPrefix(sp, "two-schemas") {
+						for _, q2 := range []string{"own-name", "other-name"} {
+							if !ev.Each(col, "enumerated", Case{Dialect: d, Base: base, Scenario: "create", Qualifier: q2, Mode: mode, Span: sp}, check, known) {
+								return
+							}
+						}
+					}
 					// the planners of the MySQL-family drivers (TiDB plans every change on its own)
 					if d == "mysql" {
 						for _, fl := range []string{"mysql8", "mysql57", "maria", "tidb"} {
